@@ -8,3 +8,10 @@ func VerifResetCPULimit() {
 		<-cpuLimit
 	}
 }
+
+// VerifSetCPULimit replaces the build semaphore by an empty one of the given
+// capacity (it is sized from GOMAXPROCS at package initialisation; the
+// capacity is a per-case parameter of the simulation).
+func VerifSetCPULimit(n int) {
+	cpuLimit = make(chan unit, n)
+}
